@@ -371,6 +371,111 @@ fn main() {
             }
             println!("cursor={}", out.join(","));
         }
+        // db_scenario [O<memtable>,<filesize>,<blocksize>,<reuse 0|1>] steps...
+        //   P<key>=<val> put | D<key> delete | F flush memtable | S take snapshot | C compact everything | c<lo>-<hi> compact range
+        //   R close and reopen | G<key>[@<snap>] get | I[@<snap>] forward scan | J[@<snap>] backward scan | T print table layout
+        "db_scenario" => {
+            use raindb::{ReadOptions, WriteOptions, RainDbIterator};
+            let mut o = raindb::DbOptions::with_memory_env();
+            o.db_path = "db".to_string();
+            o.create_if_missing = true;
+            o.max_memtable_size = 4 * 1024 * 1024;
+            o.max_file_size = 2 * 1024 * 1024;
+            let mut steps = &a[1..];
+            if !steps.is_empty() && steps[0].starts_with('O') {
+                let p: Vec<&str> = steps[0][1..].split(',').collect();
+                o.max_memtable_size = num(p[0]) as usize;
+                o.max_file_size = num(p[1]);
+                o.max_block_size = num(p[2]) as usize;
+                o.reuse_log_files = p[3] == "1";
+                steps = &steps[1..];
+            }
+            let mut db = Some(raindb::DB::open(o.clone()).expect("open"));
+            let mut snaps: Vec<raindb::Snapshot> = vec![];
+            let ro = |snaps: &Vec<raindb::Snapshot>, spec: &str| -> ReadOptions {
+                match spec.split('@').nth(1) {
+                    Some(i) => ReadOptions { fill_cache: true, snapshot: Some(snaps[num(i) as usize].clone()) },
+                    None => ReadOptions::default(),
+                }
+            };
+            for (n, st) in steps.iter().enumerate() {
+                let (op, arg) = st.split_at(1);
+                let d = db.as_ref().unwrap();
+                match op {
+                    "P" => {
+                        let kv: Vec<&str> = arg.split('=').collect();
+                        let r = d.put(WriteOptions::default(), hex(kv[0]), hex(kv[1]));
+                        println!("step{}={}", n, if r.is_ok() { "ok" } else { "err" });
+                    }
+                    "D" => {
+                        let r = d.delete(WriteOptions::default(), hex(arg));
+                        println!("step{}={}", n, if r.is_ok() { "ok" } else { "err" });
+                    }
+                    "F" => println!("step{}={}", n, if d.flush_for_verif() { "ok" } else { "err" }),
+                    "S" => {
+                        snaps.push(d.get_snapshot());
+                        println!("step{}=ok", n);
+                    }
+                    "C" => {
+                        d.compact_range(None..None);
+                        println!("step{}=ok", n);
+                    }
+                    "c" => {
+                        let lh: Vec<&str> = arg.split('-').collect();
+                        let (lo, hi) = (hex(lh[0]), hex(lh[1]));
+                        d.compact_range(Some(lo.as_slice())..Some(hi.as_slice()));
+                        println!("step{}=ok", n);
+                    }
+                    "R" => {
+                        snaps.clear();
+                        db = None;
+                        db = Some(raindb::DB::open(o.clone()).expect("reopen"));
+                        println!("step{}=ok", n);
+                    }
+                    "G" => {
+                        let k = hex(arg.split('@').next().unwrap());
+                        let r = d.get(ro(&snaps, arg), &k);
+                        println!(
+                            "step{}={}",
+                            n,
+                            match r {
+                                Ok(val) => format!("val:{}", tohex(&val)),
+                                Err(raindb::RainDBError::KeyNotFound) => "notfound".to_string(),
+                                Err(e) => format!("err:{:?}", e).replace('=', ":"),
+                            }
+                        );
+                    }
+                    "I" | "J" => {
+                        let mut it = d.new_iterator(ro(&snaps, arg)).expect("iterator");
+                        let mut out = vec![];
+                        if op == "I" {
+                            let _ = it.seek_to_first();
+                        } else {
+                            let _ = it.seek_to_last();
+                        }
+                        let mut guard = 0;
+                        while it.is_valid() && guard < 10000 {
+                            let (k, val) = it.current().unwrap();
+                            out.push(format!("{}:{}", tohex(k), tohex(val)));
+                            if op == "I" {
+                                it.next();
+                            } else {
+                                it.prev();
+                            }
+                            guard += 1;
+                        }
+                        println!("step{}=scan:{}", n, out.join(","));
+                    }
+                    "T" => {
+                        let r = d.get_descriptor(raindb::db::DatabaseDescriptor::SSTables).unwrap_or_default();
+                        println!("step{}=layout:{}", n, r.replace('\n', ";").replace('=', ":"));
+                    }
+                    _ => panic!("bad step {}", st),
+                }
+            }
+            drop(snaps);
+            drop(db);
+        }
         other => {
             eprintln!("unknown command {}", other);
             std::process::exit(2);
